@@ -229,11 +229,10 @@ def a_set_cached(m, op):
 def a_set_allow_none(m, op):
     t = sp(m, op.get("space") or "")
     if op.get("name"):
-        d = rm.derived_cells(t)[op["name"]]
-        if d[0] is t:
-            d[1].allow_none = op["v"]
-        else:
-            t.__dict__.setdefault("derived_allow_none", {})[op["name"]] = op["v"]
+        # setting a property of a derived cells defines it there (modelx: only the flag is set on that copy; the
+        # RefModel keeps it on an overriding copy so that later derivations see it)
+        c = _define(m, t, op["name"]) if False else rm.derived_cells(t)[op["name"]][1]
+        c.allow_none = op["v"] if op["v"] is None else bool(op["v"])
     else:
         t.allow_none = op["v"] if op["v"] is None else bool(op["v"])
 
